@@ -196,6 +196,64 @@ func init() {
 			})
 		}
 
+		// ReadChanges token gate: the guards between decoding the token and calling the backend, in source order,
+		// each with the error it returns; and what the query serializes into the next token / hands to the backend
+		fsetR, fR, err := parseFile(repo, "pkg/server/commands/read_changes.go")
+		if err != nil {
+			return Result{}, err
+		}
+		rcx := findFunc(fR, "ReadChangesQuery", "Execute")
+		if rcx == nil {
+			return Result{}, fmt.Errorf("ReadChangesQuery.Execute not found")
+		}
+		var rcGate []string
+		var rcSerArgs, rcBackend []string
+		backendSeen := false
+		ast.Inspect(rcx.Body, func(n ast.Node) bool {
+			switch x := n.(type) {
+			case *ast.IfStmt:
+				if backendSeen {
+					return true
+				}
+				ret := "-"
+				if len(x.Body.List) > 0 {
+					if rs, ok := x.Body.List[len(x.Body.List)-1].(*ast.ReturnStmt); ok && len(rs.Results) == 2 {
+						ret = src(fsetR, rs.Results[1])
+					}
+				}
+				rcGate = append(rcGate, src(fsetR, x.Cond)+" => "+ret)
+			case *ast.AssignStmt:
+				if len(x.Rhs) == 1 {
+					if ce, ok := x.Rhs[0].(*ast.CallExpr); ok {
+						fn := src(fsetR, ce.Fun)
+						if fn == "q.backend.ReadChanges" {
+							backendSeen = true
+						}
+						if fn == "q.encoder.Decode" || fn == "q.tokenSerializer.Deserialize" || fn == "q.tokenSerializer.Serialize" || fn == "q.encoder.Encode" {
+							var as []string
+							for _, a := range ce.Args {
+								as = append(as, src(fsetR, a))
+							}
+							var ls []string
+							for _, l := range x.Lhs {
+								ls = append(ls, src(fsetR, l))
+							}
+							rcSerArgs = append(rcSerArgs, strings.Join(ls, ",")+" = "+fn+"("+strings.Join(as, ", ")+")")
+						}
+					}
+				}
+			case *ast.KeyValueExpr:
+				if k := src(fsetR, x.Key); k == "ObjectType" {
+					rcBackend = append(rcBackend, k+": "+src(fsetR, x.Value))
+				}
+			case *ast.CallExpr:
+				if src(fsetR, x.Fun) == "storage.NewPaginationOptions" && len(x.Args) == 2 {
+					rcBackend = append(rcBackend, "from: "+src(fsetR, x.Args[1]))
+				}
+			}
+			return true
+		})
+
 		b := func(x bool) string {
 			if x {
 				return "true"
@@ -222,6 +280,12 @@ func init() {
 		sb.WriteString("def encoderSites : List String := " + leanStrList(encoderSites) + "\n")
 		sb.WriteString("/-- body of create32ByteKey (key derivation from the configured secret) -/\n")
 		sb.WriteString("def keyDerivationBody : String := " + leanStr(keyDerivation) + "\n")
+		sb.WriteString("/-- ReadChangesQuery.Execute: guards before the backend call (`cond => returned error`), in source order -/\n")
+		sb.WriteString("def readChangesGate : List String := " + leanStrList(rcGate) + "\n")
+		sb.WriteString("/-- ReadChangesQuery.Execute: the decode / deserialize / serialize / encode calls with their operands -/\n")
+		sb.WriteString("def readChangesCodecCalls : List String := " + leanStrList(rcSerArgs) + "\n")
+		sb.WriteString("/-- what the query hands to the backend (start position, type filter) -/\n")
+		sb.WriteString("def readChangesBackendArgs : List String := " + leanStrList(rcBackend) + "\n")
 		sb.WriteString("\nend OpenFGAVerif.Gen.Token\n")
 		return Result{Lean: sb.String(), Summary: map[string]interface{}{
 			"serializeSep": serSep, "deserializeSep": cutSep, "base64": []string{encFl, decFl},
